@@ -11,6 +11,8 @@ SEPS = {
     'plain': [' '],
     'mixed': [' ', ' ', ' ', '\n', '\n    ', '\t', '  ', ' /* c */ ', ' /* two\n   lines */ ', ' // tail\n', '\n\n'],
     'dense': ['\n', ' /* x */\n', '\t\t', ' // c\n  '],
+    # everything on one line, except that the two words of end if / end for / end while are on different lines
+    'line': [' ', ' ', ' ', '  ', '\t', ' /* c */ '],
 }
 
 
@@ -82,12 +84,13 @@ def render(toks, seed, case='lower', layout='mixed', keep=None):
                 tight = rnd.choice(['', '', '', '/* t */', '// t\n', '/**/'])
                 if tight == '' and can_glue(text, word_of(tok)):
                     s = ''
-                elif tight and text[-1] != '/':
+                elif tight and text[-1] != '/' and not (layout == 'line' and '\n' in tight):
                     s = tight
             text += s
             line += s.count('\n')
         if word.split(' ')[0] == 'end' and ' ' in word:            # END_IF / END_FOR / END_WHILE: inner whitespace
-            inner = rnd.choice([' ', ' ', '  ', '\t', '\n']) if layout != 'plain' else ' '
+            inner = ' ' if layout == 'plain' else rnd.choice(['\n', ' \n', '\n\t', '\n\n ']) if layout == 'line' else \
+                rnd.choice([' ', ' ', '  ', '\t', '\n'])
             a, b = word.split(' ')
             word = casing(a, case, crnd) + inner + casing(b, case, crnd)
         elif word.lower() in KEYWORDS and word == word.lower():
